@@ -206,6 +206,17 @@ def goalPhase (cfg : Cfg S α) (st : St S α) : St S α × Bool :=
     | some s => addMotion cfg st1 { state := s, parent := none, root := s, valid := true, children := [], inStart := false }
     | none => st1, needGoal)
 
+/-- the states from motion `i` up to its root (`mpath`) -/
+def chainStates (ar : Array (Motion S)) (i : Nat) : List S :=
+  (chainUp ar (ar.size + 1) i).filterMap (fun j => ar[j]?.map (·.state))
+
+/-- the reported path: `id` is the new motion of the expanded tree, `co` the motion of the other tree;
+`if (startTree) mpath1.swap(mpath2)` (there `startTree` has already been flipped); start-tree chain reversed (root
+first), then the goal-tree chain (leaf first) -/
+def pathOf (useStart : Bool) (ar : Array (Motion S)) (id co : Nat) : List S :=
+  if useStart then (chainStates ar id).reverse ++ chainStates ar co
+  else (chainStates ar co).reverse ++ chainStates ar id
+
 /-- "attempt to connect trees": `id` is the new motion (state `x`, expanded from `existing`) -/
 def tryConnect (cfg : Cfg S α) (useStart : Bool) (st : St S α) (id : Nat) (existing : Motion S) (x : S)
     (dr : Draw S α) (info : Info) : St S α × Info :=
@@ -233,11 +244,7 @@ def tryConnect (cfg : Cfg S α) (useStart : Bool) (st : St S α) (id : Nat) (exi
             let r2 := isPathValid cfg (!useStart) co r1.2
             let info := { info with ok2 := some r2.1 }
             if r2.1 then
-              let st := r2.2
-              let c1 := (chainUp st.ar (st.ar.size + 1) id).filterMap (fun i => st.ar[i]?.map (·.state))
-              let c2 := (chainUp st.ar (st.ar.size + 1) co).filterMap (fun i => st.ar[i]?.map (·.state))
-              let path := if useStart then c1.reverse ++ c2 else c2.reverse ++ c1
-              ({ st with solved := some path }, info)
+              ({ r2.2 with solved := some (pathOf useStart r2.2.ar id co) }, info)
             else (r2.2, info)
           else (r1.2, info)
         else (st, info)
